@@ -1789,3 +1789,19 @@ def lean_ctables(data):
     L.append('def cUncovered : List CUncovered := [\n  ' + ',\n  '.join(unc) + ']')
     L.append('end Gen')
     return '\n'.join(L) + '\n'
+
+
+def lean_ctables_stub(err):
+    """Tables written when the reader crashed: all empty, so that no C19 obligation holds."""
+    L = ['/- GENERATED by harness/extract.py (reader: harness/cpyx.py) — the reader FAILED: -/',
+         'import DD.CTableTypes', 'namespace Gen', 'open DD',
+         f'def cExtractError : String := {_ls(err)}',
+         'def cApply : List CApplyTable := []',
+         'def cOperators : List (Backend × String × CRow) := []',
+         'def cAcceptedPy : List (Backend × List String) := []',
+         'def cQuantRolesPy : List (Backend × String × Bool × COperand × COperand) := []',
+         'def cLocalProducers : List (Backend × List String) := []',
+         'def cRefTraces : List CMethod := []',
+         'def cUncovered : List CUncovered := []',
+         'end Gen']
+    return '\n'.join(L) + '\n'
